@@ -75,7 +75,12 @@ def pStamp : P (Option RawStamp) := do
   if f = "-" then pure none else
   match f.splitOn "," with
   | [y, mo, d, tod] =>
-    match (if y = "N" then some none else (decNat y).map some), decNat mo, decNat d, decNat tod with
+    -- year field: "N" none, "1999" four digits, "y69" two digits as written (the model applies the pivot)
+    let yf : Option (Option Nat) :=
+      if y = "N" then some none
+      else if y.startsWith "y" then (decNat (y.drop 1).toString).map (fun yy => some (pivotYear yy))
+      else (decNat y).map some
+    match yf, decNat mo, decNat d, decNat tod with
     | some y, some mo, some d, some tod => pure (some ⟨y, mo, d, tod⟩)
     | _, _, _, _ => failure
   | _ => failure
